@@ -3345,6 +3345,7 @@ def socp(c, Gl = None, hl = None, Gq = None, hq = None, A = None, b = None,
         Options that are not recognized are replaced by their default
         values.
     """
+    options = kwargs.get('options',globals()['options'])
 
     from cvxopt import base, blas
     from cvxopt.base import matrix, spmatrix
